@@ -48,6 +48,8 @@ for _w in ("EGL.FEETABOVEMEANSEALEVEL  : an empty value with a unit, widest item
     GEN.append("~V\nVERS. 2.0:\nWRAP. NO:\n~W\nSTRT.M 1:\nSTOP.M 2:\nSTEP.M 1:\nNULL. -999.25:\n" + _w + "\n~C\nDEPT.M:\nGR.:\n~A\n1 1\n2 2\n")
 GEN.append("~V\nVERS. 2.0:\nWRAP. NO:\nDLM. COMMA: declared delimiter\n~W\nSTRT.M 1:\nSTOP.M 3:\nSTEP.M 1:\nNULL. -999.25:\n~C\nDEPT.M:\nZONE.:\nGR.:\n~A\n"
            "1.0,pick gamma,5.5\n2.0,shale,-999.25\n3.0,lime stone bed,7.5\n")
+GEN.append("~V\nVERS. 2.0:\nWRAP. NO:\n~W\nSTRT.M 1.0: first\nSTOP.M 4.5: last\nSTEP.  : irregular spacing, no unit and no value\nNULL. -999.25:\n"
+           "~C\nDEPT.M: index with a unit\nGR.:\n~A\n1.0 10\n2.0 20\n4.5 30\n")
 _WORDS = ["SAND-SHALE", "A-B", "LIME-DOLO-MIX", "X-Y-Z-W", "SILT", "COAL-1"]
 GEN.append("~V\nVERS. 2.0:\nWRAP. NO:\n~W\nSTRT.M 1:\nSTOP.M 4:\nSTEP.M 1:\nNULL. -999.25:\n~C\nDEPT.M:\n"
            + "".join("N%d.:\nT%d.:\n" % (j, j) for j in range(1, 7)) + "~A\n"
